@@ -169,11 +169,19 @@ func (th *TagsHolder) GetTSID(mName []byte) (uint64, error) {
 			log.Errorf("TagsHolder.GetTSID: Error writing tags separator %v, err=%v", tags_separator, err)
 			return 0, err
 		}
-		th.writeFieldLen(len(val.tagValue))
-		if val.tagValue == nil {
+		tagValue := val.tagValue
+		if val.tagValueType == jp.String && bytes.IndexByte(tagValue, '\\') >= 0 {
+			// The id of a series is made of its tag values, not of the way they are spelled in JSON:
+			// "a\u0041" and "aA" are the same value.
+			if value, err := jp.ParseString(tagValue); err == nil {
+				tagValue = []byte(value)
+			}
+		}
+		th.writeFieldLen(len(tagValue))
+		if tagValue == nil {
 			continue
 		}
-		_, err = th.buf.Write(val.tagValue)
+		_, err = th.buf.Write(tagValue)
 		if err != nil {
 			log.Errorf("TagsHolder.GetTSID: Error writing tag value %v, err=%v", val.tagValue, err)
 			return 0, err
